@@ -59,7 +59,8 @@ def geo_specs(draw, dims=(1, 2, 3), classes=CLASSES):
             "const": draw(st.integers(0, 7)) == 0,
         })
     return {"cls": cls, "dim": dim, "base": base, "m": m, "vox": vox, "vk": vk,
-            "ctor": draw(st.sampled_from(["dimensions", "voxel_size"])), "weights": weights}
+            "ctor": draw(st.sampled_from(["dimensions", "voxel_size"])), "weights": weights,
+            "nv_extra": draw(st.sampled_from([[], [], [], [3], [2, 3], [1]]))}
 
 
 @st.composite
@@ -159,7 +160,9 @@ def _dimensions(geo):
 
 def build_geometry(geo):
     shape = _native(geo)
-    kw = {"space_dim": geo["dim"], "num_voxels": list(shape)}
+    # the constructor truncates num_voxels to space_dim entries so that a full array shape
+    # (with time / component axes) may be passed
+    kw = {"space_dim": geo["dim"], "num_voxels": list(shape) + list(geo.get("nv_extra", []))}
     if geo["ctor"] == "dimensions":
         kw["dimensions"] = _dimensions(geo)
     else:
